@@ -910,6 +910,16 @@ def check_C04(ctx):
                           "# (forking mode, text reporter, the test program started with SIGINT ignored - e.g. `nohup ./scenario_run ...`; harness/scenario_run writes <outdir>/fingerprints)\n" + s.text(),
                           found_input=True, facts={"mode": "fork", "inherited_state": True, "start": "sigint-ignored"})
     ctx.coverage["started_with_sigint_ignored"] = {"runs": len(ig), "tests_fingerprinted": n_ig}
+    # correspondence with the model of the runner's handling of SIGINT (Model/Signals.lean, theorem C04_sigint_inherited): what each
+    # test's process starts with, in the order the runner forks them, for a program started with SIGINT default and ignored
+    def sigints(o):
+        return "".join(l.split("sig:", 1)[1][1] for l in o.fingerprints if "sig:" in l)
+    pairs = [("D", sigints(o)) for o in obs if o.fingerprints] + [("I", sigints(o)) for o in iobs if o.fingerprints]
+    mouts = run_model(["sigint"], "".join(f"{d} {'0' * len(g)}\n" for d, g in pairs)).split("\n")
+    nsd = sum(1 for (d, g), mo in zip(pairs, mouts) if g != mo)
+    ctx.oblige("correspondence C04: every test's process starts with the SIGINT disposition the model says (program started with SIGINT default / ignored)", nsd == 0 and len(pairs) > 0,
+               f"{nsd} of {len(pairs)} runs differ" + "".join(f"; started {d}: tests found {g}, model {mo}" for (d, g), mo in list(zip(pairs, mouts))[:400] if g != mo)[:300])
+    ctx.coverage["sigint_model_runs"] = len(pairs)
     # the same orders as another reporter shows them: what CUTE says about a test (its status lines) does not depend on the order either
     cobs = bench.run_many([(s.text(), "cute") for s in scens])
     for g in groups:
